@@ -492,10 +492,29 @@ class MapfileTransformer(Transformer):
             [str(v.value) for v in t]
         )  # convert to string for boolean expressions e.g. (true)
 
-        if not self.quoter.in_parenthesis(exp):
+        if not self.is_enclosed(exp):
             t[0].value = f"({exp})"
 
         return t[0]
+
+    def is_enclosed(self, exp: str) -> bool:
+        """
+        Check the expression starts with a bracket that is closed by its last character
+        e.g. (a) but not (a) * (b)
+        """
+        if not self.quoter.in_parenthesis(exp):
+            return False
+
+        depth = 0
+        for idx, char in enumerate(exp.strip()):
+            if char == "(":
+                depth += 1
+            elif char == ")":
+                depth -= 1
+                if depth == 0 and idx < len(exp.strip()) - 1:
+                    return False
+
+        return True
 
     def add(self, t):
         assert len(t) == 2
